@@ -14,6 +14,7 @@ var c17Tails = []string{
 	".a", ".b", ".a.b", ".a[0]", "[0]", "[-1]", "[0].a", ".a[*]", ".a[*].b", "[*]", "[*].a", ".*", ".*.a", ".a.*", "[?a]", "[?a].b", ".a[?@]", "[?@ == `1`]",
 	"[1:]", "[::-1].a", ".a[:1]", ".[a, b]", ".{x: a, y: b}", ".[a]", ".{x: a}", ".length(@)", ".type(@)", ".not_null(a, b)", ".to_array(a)", ".keys(@)",
 	".a.to_array(@)[*]", ".a.to_array(@)[0:]", ".a.keys(@)[*]", ".a.not_null(@, `[1]`)[*]", ".a.to_string(@)", ".a.type(@)", ".b.to_array(@)[*].a", ".a.length(to_array(@))",
+	".[a, $u]", ".{x: $u}", ".abs(`\"s\"`)", ".a.abs(@)", ".[a, `1` / `0`]", ".pad_left('a', `-1`)", ".not_null($u, a)",
 	"[127]", "[128]", "[200]", "[255]", "[256]", "[-128]", "[-129]", "[-256]", "[128].a", ".a[255]", ".b[200]", "[100:][130]",
 	".a | [0]", " | [0]", " | [1]", " | [-1]", "[?!a] | [0]", "[?a != `1`] | [0]", "[?a == `null`] | [1]", "[?!@] | [0]", ".a[?!a] | [0]", ".a || `\"dflt\"`", ".a && b", ".a == `1`", "[].a", ".a[]", "[*][0]", "[*].*", ".[a, b][0]", ".{x: a}.x",
 }
